@@ -986,6 +986,7 @@ package gmars
 //@   modifies nothing
 //@   assumes result.1 == nil ==> result.0 == exprVal(expr)
 //@   ensures [C07] result.1 == nil ==> 0 - 2147483648 <= result.0 && result.0 <= 2147483647
+//@   ensures [C07] result.1 != nil ==> result.0 == 0
 //@   ensures [C05][C07] result.1 == nil ==> (forall k :: 0 <= k && k < len(expr) ==> expr[k].typ != tokText)
 //@   loop 1
 //@     invariant 0 - 1 <= rangeindex && rangeindex < len(expr) && (forall k :: 0 <= k && k <= rangeindex ==> expr[k].typ != tokText)
@@ -1086,7 +1087,7 @@ package gmars
 //@     invariant 0 - 1 <= rangeindex && rangeindex < len(c.lines) && c.m >= 1 && c.m <= 4294967296
 // the assembling loop gives up only when a line fails to assemble (a warrior of exactly the maximum length is
 // not cut short; the length check comes after the loop)
-//@     returns [C09][C06][C03] err != nil
+//@     returns [C09][C06][C03] local(err) != nil
 //@     decreases len(c.lines) - rangeindex
 //@ pure codeWf2(code []Instruction, m int) = forall k :: 0 <= k && k < len(code) ==> wfI(code[k], m)
 //@ pure codeLegal88s(code []Instruction) = forall k :: 0 <= k && k < len(code) ==> legal88(code[k])
@@ -1707,7 +1708,7 @@ package gmars
 // a program is accepted only if the assert condition does not evaluate to zero, and rejected for this reason
 // only if it does
 //@   ensures [C07] result == nil ==> exprVal(exprTokens) != 0
-//@   ensures [C07] result != nil && err == nil ==> exprVal == 0
+//@   ensures [C07] result != nil ==> exprVal == 0
 //@ trusted ExpandAndEvaluate
 //@   modifies nothing
 //@   ensures result.1 == nil ==> 0 - 2147483648 <= result.0 && result.0 <= 2147483647
